@@ -177,11 +177,18 @@ struct Case {
     file_route: bool,                // true: dictionaries written to files and named in the configuration (systemDict / userDict,
                                      // JapaneseDictionary::from_cfg); false: from_cfg_storage with in-memory storage
     rewrite: Vec<u8>,                // path rewrite plugins in configuration order: 0 JoinNumericPlugin, 1 JoinKatakanaOovPlugin
+    join_pos: Option<usize>,         // oovPOS of JoinKatakanaOovPlugin: None = POS of the first system word, Some(p) = a POS that an
+                                     // OOV provider registers (userPOS allow) and the system dictionary lacks
+}
+impl Case {
+    fn join_pos_fields(&self) -> Vec<String> {
+        pos_fields(self.join_pos.unwrap_or(self.sys[0].pos))
+    }
 }
 impl Case {
     fn plain(sys: Vec<Row>, plugins: Vec<Plug>, users: Vec<(bool, Vec<Row>)>) -> Case {
         let n = users.len();
-        Case { sys, plugins, users, dup: vec![None; n], file_route: false, rewrite: vec![] }
+        Case { sys, plugins, users, dup: vec![None; n], file_route: false, rewrite: vec![], join_pos: None }
     }
 }
 const REWRITE_NAMES: [&str; 2] = ["JoinNumeric", "JoinKatakanaOov"];
@@ -425,7 +432,23 @@ fn gen_case(rng: &mut Rng, nusers: usize) -> Case {
         // JoinNumericPlugin refuses to load unless the grammar knows the numeral POS: a system numeral
         sys.push(Row { surface: "7".into(), reading: "ナナ".into(), pos: NUM_POS, a: vec![], b: vec![], ws: vec![] });
     }
-    Case { sys, plugins, users, dup, file_route: rng.chance(1, 2), rewrite }
+    // the join plugin's POS may be one that exists only because an OOV provider registers it (providers are set up first)
+    let registered: Vec<usize> = {
+        let sys_has: Vec<usize> = sys.iter().map(|r| r.pos).collect();
+        let mut v = vec![];
+        for p in &plugins {
+            if p.mode == 0 {
+                for q in &p.pos {
+                    if !sys_has.contains(q) && !v.contains(q) {
+                        v.push(*q);
+                    }
+                }
+            }
+        }
+        v
+    };
+    let join_pos = if !registered.is_empty() && rng.chance(1, 2) { Some(*rng.pick(&registered)) } else { None };
+    Case { sys, plugins, users, dup, file_route: rng.chance(1, 2), rewrite, join_pos }
 }
 
 fn config_json(c: &Case) -> String {
@@ -459,7 +482,7 @@ fn config_value(c: &Case, with_rewrite: bool) -> Value {
                 rw.push(json!({"class": "com.worksap.nlp.sudachi.JoinNumericPlugin", "enableNormalize": false}));
             } else {
                 // the POS of the first system word always exists in the grammar
-                rw.push(json!({"class": "com.worksap.nlp.sudachi.JoinKatakanaOovPlugin", "oovPOS": pos_fields(c.sys[0].pos), "minLength": 3}));
+                rw.push(json!({"class": "com.worksap.nlp.sudachi.JoinKatakanaOovPlugin", "oovPOS": c.join_pos_fields(), "minLength": 3}));
             }
         }
         v["pathRewritePlugin"] = Value::Array(rw);
@@ -539,7 +562,7 @@ fn case_json(c: &Case) -> Value {
     json!({"kind": "c12", "sys": rows(&c.sys),
            "plugins": c.plugins.iter().map(|p| json!({"kind": p.kind, "provider": KIND_NAMES[p.kind as usize], "mode": p.mode, "userPOS": MODE_NAMES[p.mode as usize], "pos": p.pos, "cats": p.cats, "costs": p.costs, "kata": [p.kata.0, p.kata.1, p.kata.2 > 0, p.kata.2]})).collect::<Vec<_>>(),
            "users": c.users.iter().map(|(cf, rs)| json!({"configured": cf, "rows": rows(rs)})).collect::<Vec<_>>(),
-           "same_file_as": c.dup, "file_route": c.file_route, "rewrite": c.rewrite,
+           "same_file_as": c.dup, "file_route": c.file_route, "rewrite": c.rewrite, "join_pos": c.join_pos,
            "rewrite_plugins": c.rewrite.iter().map(|k| REWRITE_NAMES[*k as usize]).collect::<Vec<_>>(),
            "pos_pool": (0..NPOOL).map(pos_csv).collect::<Vec<_>>()})
 }
@@ -585,6 +608,7 @@ fn case_from_json(v: &Value) -> Case {
         dup: v["same_file_as"].as_array().map(|a| a.iter().map(|x| x.as_u64().map(|y| y as usize)).collect()).unwrap_or_else(|| vec![None; v["users"].as_array().unwrap().len()]),
         file_route: v["file_route"].as_bool().unwrap_or(false),
         rewrite: v["rewrite"].as_array().map(|a| a.iter().map(|x| x.as_u64().unwrap() as u8).collect()).unwrap_or_default(),
+        join_pos: v["join_pos"].as_u64().map(|x| x as usize),
     }
 }
 
@@ -1167,7 +1191,7 @@ fn run_case(sink: &mut Sink, c: &Case, verbose: bool) {
                         if oov != (did == -1) {
                             fail(format!("merged token {:?}: is_oov {} but dictionary {}", surf, oov, did), "");
                         }
-                        let join_pos = pos_fields(c.sys[0].pos);
+                        let join_pos = c.join_pos_fields();
                         if pos != join_pos && pos != inside[0].3 {
                             fail(format!("merged token {:?} reports POS {:?}: neither the join plugin's POS nor the POS of its first part", surf, pos), "");
                         }
@@ -1226,6 +1250,245 @@ fn run_case(sink: &mut Sink, c: &Case, verbose: bool) {
     }
 }
 
+
+// ---------------------------------------------------------------------------------------------------------------------
+// `sudachi ubuild` stage: a user lexicon split over several files given on the command line in NON-alphabetical order; the
+// words of the dictionary it writes, their U-prefixed / numeric references included, are compared with the rows in the GIVEN
+// order (word number = position in that concatenation).
+/// the system dictionary `sudachi ubuild` can load with the DEFAULT configuration (it takes no configuration option): every POS
+/// resources/unk.def and resources/sudachi.json name, a matrix as large as their connection ids (header only, all costs 0);
+/// compiled once and kept under .work
+fn default_cfg_system(dir: &std::path::Path) -> Result<(std::path::PathBuf, Vec<u8>, usize), String> {
+    let res = format!("{}/resources", repo());
+    let unk = std::fs::read_to_string(format!("{}/unk.def", res)).map_err(|e| format!("unk.def: {}", e))?;
+    let cfg: Value = serde_json::from_str(&std::fs::read_to_string(format!("{}/sudachi.json", res)).map_err(|e| format!("sudachi.json: {}", e))?).map_err(|e| format!("sudachi.json: {}", e))?;
+    let mut max_id = 0i64;
+    let mut poss: Vec<String> = vec!["名詞,普通名詞,一般,*,*,*".to_string()];
+    for l in unk.lines().map(|l| l.trim()).filter(|l| !l.is_empty() && !l.starts_with('#')) {
+        let c: Vec<&str> = l.split(',').collect();
+        if c.len() >= 10 {
+            max_id = max_id.max(c[1].parse().unwrap_or(0)).max(c[2].parse().unwrap_or(0));
+            poss.push(c[4..10].join(","));
+        }
+    }
+    for key in ["oovProviderPlugin", "pathRewritePlugin"] {
+        for p in cfg[key].as_array().cloned().unwrap_or_default() {
+            max_id = max_id.max(p["leftId"].as_i64().unwrap_or(0)).max(p["rightId"].as_i64().unwrap_or(0));
+            if let Some(a) = p["oovPOS"].as_array() {
+                if a.len() == 6 {
+                    poss.push(a.iter().map(|x| x.as_str().unwrap_or("*")).collect::<Vec<_>>().join(","));
+                }
+            }
+        }
+    }
+    poss.push("名詞,数詞,*,*,*,*".to_string());
+    poss.sort();
+    poss.dedup();
+    let n = max_id + 1;
+    if n > 20000 {
+        return Err(format!("the default configuration asks for a {} x {} matrix", n, n));
+    }
+    let mut csv = String::new();
+    for (i, p) in poss.iter().enumerate() {
+        csv.push_str(&format!("基{},0,0,100,基{},{},キ,基{},*,A,*,*,*,*\n", i, i, p, i));
+    }
+    let path = dir.join(format!("default_cfg_system_{}_{:016x}.dic", n, hash_of(&csv)));
+    if let Ok(b) = std::fs::read(&path) {
+        if b.len() > (n * n * 2) as usize {
+            return Ok((path, b, poss.len()));
+        }
+    }
+    let b = match catch(|| -> Result<Vec<u8>, String> {
+        let mut bl = DictBuilder::new_system();
+        bl.read_conn(format!("{} {}\n", n, n).as_bytes()).map_err(|e| format!("{:?}", e))?;
+        bl.read_lexicon(csv.as_bytes()).map_err(|e| format!("{:?}", e))?;
+        bl.resolve().map_err(|e| format!("{:?}", e))?;
+        let mut out = vec![];
+        bl.compile(&mut out).map_err(|e| format!("{:?}", e))?;
+        Ok(out)
+    }) {
+        Ok(r) => r?,
+        Err(p) => return Err(format!("PANIC {}", p)),
+    };
+    std::fs::create_dir_all(dir).map_err(|e| e.to_string())?;
+    std::fs::write(&path, &b).map_err(|e| e.to_string())?;
+    Ok((path, b, poss.len()))
+}
+
+fn ubuild_round(sink: &mut Sink, work: &std::path::Path, seed: u64, round: usize, verbose: bool) {
+    let cli = std::env::var("VERIF_CLI_BIN").unwrap_or_default();
+    if cli.is_empty() || !std::path::Path::new(&cli).exists() {
+        sink.tag("ubuild_stage_skipped_no_VERIF_CLI_BIN");
+        return;
+    }
+    let dir = work.join("c12_ubuild");
+    let d = json!({"kind": "c12-ubuild", "seed": seed, "round": round});
+    let (sys_path, sys_bytes, nsys) = match default_cfg_system(&work.join("c12_ubuild_sys")) {
+        Ok(x) => x,
+        Err(e) => {
+            let id = sink.case_rust_only(d, false);
+            sink.fail(id, &format!("the system dictionary for `sudachi ubuild` cannot be made: {}", e), "");
+            return;
+        }
+    };
+    let mut rng = Rng::new(seed ^ 0xC12_0B1D ^ round as u64);
+    // rows per file; references are written against the word numbers of the files in the GIVEN order
+    let names = ["zz_first.csv", "aa_second.csv", "mm_third.csv"];
+    let nfiles = if round == 0 { 3 } else { 2 + rng.below(2) as usize };
+    let counts: Vec<usize> = (0..nfiles).map(|_| if round == 0 { 2 } else { 1 + rng.below(3) as usize }).collect();
+    let mut given: Vec<usize> = (0..nfiles).collect();
+    if round % 2 == 1 {
+        given.push(0); // a path given twice: its rows are in the dictionary twice
+    }
+    // global row list in the given order: (file, row in file)
+    let order: Vec<(usize, usize)> = given.iter().flat_map(|f| (0..counts[*f]).map(move |j| (*f, j))).collect();
+    let total = order.len();
+    // every distinct (file, row): surface, POS, references (as global word numbers of the FIRST listing of the target)
+    let first_pos = |f: usize, j: usize| order.iter().position(|x| *x == (f, j)).unwrap();
+    struct URow {
+        surface: String,
+        pos: usize,
+        a: Vec<(bool, usize)>,
+        ws: Vec<(bool, usize)>,
+    }
+    let mut rows: Vec<Vec<URow>> = vec![];
+    for f in 0..nfiles {
+        let mut v = vec![];
+        for j in 0..counts[f] {
+            let own = |rng: &mut Rng| (true, rng.below(total as u64) as usize);
+            let sysr = |rng: &mut Rng| (false, rng.below(nsys.min(4) as u64) as usize);
+            let (a, ws) = if round == 0 {
+                (vec![(true, (first_pos(f, j) + 1) % total), (false, 1)], vec![(true, (first_pos(f, j) + 3) % total), (true, 0)])
+            } else {
+                (if rng.chance(2, 3) { vec![own(&mut rng), sysr(&mut rng)] } else { vec![] }, if rng.chance(2, 3) { vec![own(&mut rng), own(&mut rng)] } else { vec![] })
+            };
+            v.push(URow { surface: format!("c{}w{}", f, j), pos: (f * 3 + j) % (NPOOL - 1), a, ws });
+        }
+        rows.push(v);
+    }
+    let rf = |r: &(bool, usize)| if r.0 { format!("U{}", r.1) } else { format!("{}", r.1) };
+    let lst = |v: &Vec<(bool, usize)>| if v.is_empty() { "*".to_string() } else { v.iter().map(rf).collect::<Vec<_>>().join("/") };
+    let _ = std::fs::remove_dir_all(&dir);
+    std::fs::create_dir_all(&dir).unwrap();
+    let mut texts = vec![];
+    for f in 0..nfiles {
+        let mut t = String::new();
+        for (j, r) in rows[f].iter().enumerate() {
+            t.push_str(&format!("{},{},{},{},{},{},ヨミ{},{},*,{},{},*,{},*\n", r.surface, j % 5, (j + 2) % 5, 4000 + j, r.surface, pos_csv(r.pos), j, r.surface, if r.a.is_empty() { "A" } else { "C" }, lst(&r.a), lst(&r.ws)));
+        }
+        std::fs::write(dir.join(names[f]), &t).unwrap();
+        texts.push(t);
+    }
+    let out = dir.join("out.dic");
+    let mut cmd = std::process::Command::new(&cli);
+    cmd.arg("ubuild").arg("-s").arg(&sys_path).arg("-o").arg(&out).arg("-d").arg("c12");
+    for f in &given {
+        cmd.arg(dir.join(names[*f]));
+    }
+    cmd.env("RUST_BACKTRACE", "0");
+    let shown = format!("sudachi ubuild -s <system> {}", given.iter().map(|f| names[*f]).collect::<Vec<_>>().join(" "));
+    let d = json!({"kind": "c12-ubuild", "seed": seed, "round": round, "command": shown,
+                   "files": (0..nfiles).map(|f| json!([names[f], texts[f]])).collect::<Vec<_>>()});
+    let id = sink.case_rust_only(d, true);
+    sink.tag("ubuild_stage_files_in_non_alphabetical_order");
+    if verbose {
+        for f in 0..nfiles {
+            println!("--- {}\n{}", names[f], texts[f]);
+        }
+        println!("command: {}", shown);
+    }
+    let o = match cmd.output() {
+        Ok(o) => o,
+        Err(e) => {
+            sink.fail(id, &format!("cannot start {}: {}", cli, e), "");
+            return;
+        }
+    };
+    if !o.status.success() {
+        sink.fail(id, &format!("`{}` failed ({:?}) on well-formed lexicon files: {}", shown, o.status.code(), String::from_utf8_lossy(&o.stderr).chars().take(300).collect::<String>()), "");
+        return;
+    }
+    let ubytes = match std::fs::read(&out) {
+        Ok(b) => b,
+        Err(e) => {
+            sink.fail(id, &format!("`{}` wrote no dictionary: {}", shown, e), "");
+            return;
+        }
+    };
+    let cfgj = json!({"path": format!("{}/sudachi/tests/resources", repo()), "characterDefinitionFile": "char.def",
+        "oovProviderPlugin": [{"class": "com.worksap.nlp.sudachi.SimpleOovPlugin", "oovPOS": ["名詞", "普通名詞", "一般", "*", "*", "*"], "leftId": 0, "rightId": 0, "cost": 30000}]}).to_string();
+    let dict = match load(&cfgj, &sys_bytes, &[ubytes]) {
+        Ok(x) => x,
+        Err(e) => {
+            sink.fail(id, &format!("the dictionary written by `{}` does not load: {}", shown, e), "");
+            return;
+        }
+    };
+    let mut bad: Option<String> = None;
+    for (g, (f, j)) in order.iter().enumerate() {
+        let r = &rows[*f][*j];
+        let wid = WordId::new(1, g as u32);
+        let got = catch(|| {
+            let wi = dict.lexicon().get_word_info(wid).map_err(|e| format!("{:?}", e))?;
+            Ok::<_, String>((wi.surface().to_string(), dict.grammar().pos_components(wi.pos_id()).to_vec(), wi.a_unit_split().iter().map(|w| w.as_raw()).collect::<Vec<u32>>(), wi.word_structure().iter().map(|w| w.as_raw()).collect::<Vec<u32>>()))
+        });
+        let stamp = |v: &Vec<(bool, usize)>| -> Vec<u32> { v.iter().map(|x| if x.0 { (1u32 << 28) | x.1 as u32 } else { x.1 as u32 }).collect() };
+        match got {
+            Ok(Ok((surf, pos, a, ws))) => {
+                if verbose {
+                    println!("impl word (1, {}): {:?} {:?} split A {:?} word structure {:?}   | row {} of {}: {:?} {:?} A {:?} WS {:?}", g, surf, pos, a, ws, j, names[*f], r.surface, pos_fields(r.pos), stamp(&r.a), stamp(&r.ws));
+                }
+                if bad.is_none() && (surf != r.surface || pos != pos_fields(r.pos)) {
+                    bad = Some(format!("`{}`: word (1, {}) is {:?} / {:?}; position {} of the rows in the order given is row {} of {}: {:?} / {:?}", shown, g, surf, pos, g, j, names[*f], r.surface, pos_fields(r.pos)));
+                }
+                if bad.is_none() && (a != stamp(&r.a) || ws != stamp(&r.ws)) {
+                    bad = Some(format!("`{}`: word (1, {}) {:?} reports split A {:?} / word structure {:?}, its row says {:?} / {:?}", shown, g, surf, a, ws, stamp(&r.a), stamp(&r.ws)));
+                }
+                // every U-reference must name the word the row's author counted: the rows in the order given
+                for (kind, refs) in [("split A", &r.a), ("word structure", &r.ws)] {
+                    for x in refs.iter().filter(|x| x.0) {
+                        let (tf, tj) = order[x.1];
+                        let target = &rows[tf][tj].surface;
+                        let named = catch(|| dict.lexicon().get_word_info(WordId::new(1, x.1 as u32)).map(|w| w.surface().to_string()).unwrap_or_default()).unwrap_or_default();
+                        if bad.is_none() && &named != target {
+                            bad = Some(format!("`{}`: the {} reference U{} of {:?} names {:?} in the files as given, in the dictionary word (1, {}) is {:?}", shown, kind, x.1, r.surface, target, x.1, named));
+                        }
+                    }
+                }
+            }
+            Ok(Err(e)) => {
+                if bad.is_none() {
+                    bad = Some(format!("`{}`: word (1, {}) cannot be read: {}", shown, g, e));
+                }
+            }
+            Err(p) => {
+                if bad.is_none() {
+                    bad = Some(format!("`{}`: reading word (1, {}) panicked: {}", shown, g, p));
+                }
+            }
+        }
+    }
+    // and through lookup: the surface of the g-th row is found as word g (and the other listings of the same row)
+    for (g, (f, j)) in order.iter().enumerate() {
+        let sf = rows[*f][*j].surface.clone();
+        let got = catch(|| {
+            let mut ml = sudachi::analysis::mlist::MorphemeList::empty(&dict);
+            ml.lookup(&sf, sudachi::dic::subset::InfoSubset::all()).map(|_| (0..ml.len()).map(|i| ml.get(i).word_id().as_raw()).collect::<Vec<u32>>()).map_err(|e| format!("{:?}", e))
+        });
+        if let Ok(Ok(ids)) = got {
+            if bad.is_none() && !ids.contains(&((1u32 << 28) | g as u32)) {
+                bad = Some(format!("`{}`: lookup of {:?} returns words {:?}; the row is number {} of the rows in the order given", shown, sf, ids, g));
+            }
+        }
+    }
+    if let Some(b) = bad {
+        if verbose {
+            println!("FAIL: {}", b);
+        }
+        sink.fail(id, &b, "");
+    }
+}
+
 pub fn run(args: &Args) {
     let mut sink = Sink::new("C12", &args.out, &["Model.LexSet", "Model.Codec", "Model.CodecResolve", "Model.LexSetResolve"], args.seed, &args.tier);
     {
@@ -1237,6 +1500,11 @@ pub fn run(args: &Args) {
     sink.rule("system dictionary (2-6 words, 1-4 POS) + 1-3 OOV providers (SimpleOovPlugin / RegexOovProvider / MeCabOovPlugin with generated char.def + unk.def of 1-3 lines; a Simple one at a random position) each asking for POS from a pool of 12 (present / absent in the system dictionary) with its own userPOS mode allow / forbid / key absent: the configuration must load iff every unknown POS is asked for with allow, and a one-character KATAKANA probe must report the POS of the cheapest provider entry covering it + 0..15 user dictionaries, each compiled either against the bare system dictionary or against the configured dictionary as it stands (CLI ubuild / Python route), rows with POS from the pool (system / plugin-registered / other user dictionaries' / new) and split-A/B + word-structure references written as n, Un and inline triples; every word of every layer is read back (POS strings, references, surface), system words are compared with the user-free load, a text mixing words of all layers with OOV material is tokenized (dictionary_id, POS, OOV = -1); non-trivial = some user word has a user-defined POS or references; distinct by generated Coq term");
     if let Some(p) = &args.replay {
         let v: Value = serde_json::from_str(&std::fs::read_to_string(p).unwrap()).unwrap();
+        if v["case"]["kind"] == "c12-ubuild" {
+            ubuild_round(&mut sink, &args.work, v["case"]["seed"].as_u64().unwrap_or(args.seed), v["case"]["round"].as_u64().unwrap_or(0) as usize, true);
+            sink.finish();
+            return;
+        }
         let c = case_from_json(&v["case"]);
         // replays show where the implementation panics
         std::panic::set_hook(Box::new(|i| println!("[panic] {}", i)));
@@ -1258,6 +1526,9 @@ pub fn run(args: &Args) {
         return;
     }
     let mut rng = Rng::new(args.seed);
+    for round in 0..4 {
+        ubuild_round(&mut sink, &args.work, args.seed, round, false);
+    }
     // directed: the reproduced defect shape — one plugin registers a POS, one user dictionary with its own POS compiled
     // against the configured dictionary
     {
@@ -1320,7 +1591,7 @@ pub fn run(args: &Args) {
             for k in 1..n1 {
                 dup[k] = Some(0);
             }
-            let c = Case { sys: sys.clone(), plugins: vec![Plug::simple(0, 0)], users, dup, file_route, rewrite: vec![] };
+            let c = Case { sys: sys.clone(), plugins: vec![Plug::simple(0, 0)], users, dup, file_route, rewrite: vec![], join_pos: None };
             run_case(&mut sink, &c, false);
             sink.tag("directed_dictionary_listed_again");
         }
@@ -1332,7 +1603,7 @@ pub fn run(args: &Args) {
         let sys = vec![mk("s0x", 0), mk("s1x", 1), mk("ピサ", 1), mk("7", NUM_POS)];
         let u1 = vec![mk("u1w0", 5), mk("カア", 7)];
         let u2 = vec![mk("u2w0", 0), mk("カイ", 2)];
-        let c = Case { sys, plugins: vec![Plug::simple(0, 0)], users: vec![(false, u1), (true, u2)], dup: vec![None, None], file_route: false, rewrite };
+        let c = Case { sys, plugins: vec![Plug::simple(0, 0)], users: vec![(false, u1), (true, u2)], dup: vec![None, None], file_route: false, rewrite, join_pos: None };
         run_case(&mut sink, &c, false);
         sink.tag("directed_katakana_join");
     }
@@ -1369,6 +1640,25 @@ pub fn run(args: &Args) {
         let c = Case::plain(sys, vec![Plug::simple(0, 0)], vec![(configured, u1), (!configured, u2), (configured, u3)]);
         run_case(&mut sink, &c, false);
         sink.tag("directed_id_like_surfaces_and_subsets");
+    }
+    // directed: the join plugin's oovPOS is a POS that only an OOV provider (Simple / Regex / MeCab, userPOS allow) brings into the
+    // grammar: the configuration must load and the glued katakana run must report that POS
+    for kind in 0..3u8 {
+        for file_route in [false, true] {
+            let mk = |s: &str, pos: usize| Row { surface: s.into(), reading: format!("ヨ{}", s), pos, a: vec![], b: vec![], ws: vec![] };
+            let sys = vec![mk("s0x", 0), mk("s1x", 1), mk("ピサ", 1), mk("7", NUM_POS)];
+            let target = Plug { kind, mode: 0, pos: vec![9], cats: vec![1], costs: vec![555], kata: (false, true, 0) };
+            let mut plugins = vec![Plug::simple(0, 1)];
+            if kind == 0 {
+                plugins = vec![Plug::simple(9, 0)];
+            } else {
+                plugins.push(target);
+            }
+            let u1 = vec![mk("u1w0", 9), mk("カア", 7)];
+            let c = Case { sys, plugins, users: vec![(file_route, u1)], dup: vec![None], file_route, rewrite: vec![0, 1], join_pos: Some(9) };
+            run_case(&mut sink, &c, false);
+            sink.tag("directed_join_pos_registered_by_oov_provider");
+        }
     }
     // directed: 14 user dictionaries accepted, the 15th rejected
     for n in [14usize, 15] {
